@@ -1,6 +1,8 @@
 """C05 (synchronous hand-off) — Model/SyncWait.v: thread automaton tstep + global model of dispatch_sync_f /
 dispatch_barrier_sync_f / dispatch_async_and_wait_f / dispatch_async_f / root-queue workers on one serial lane.
 Exposes correspond(ctx) for lib/props/c05.py (per-thread trace conformance evaluated in Coq + API-level oracle)."""
+import os
+
 import common
 import conc
 import driver
@@ -21,6 +23,12 @@ TRUSTED = [
     "scope of the model: one serial lane (width 1) targeting a root queue, never suspended / retargeted, not thread-bound; the "
     "QoS argument of the rmw bodies is existential; steps the hook cannot see (plain reads of dq_items_tail, the store to the "
     "predecessor's do_next, root-queue push/pop) are explicit tau steps",
+    "FLAT CLIENTS: SyncWait.tstep accepts a submission call only at Idle, never from inside a work item of the lane; an item that "
+    "submits to its own queue (drainer = pusher) is outside the model, outside every C05_sync / C02_sync theorem and is not "
+    "produced by the stress harness",
+    "group edge: the producer side and the dispatch_group_wait consumer are pinned by C05_edge_group; the consumer side of "
+    "dispatch_group_notify (the thread running the notify block performs no acquire on the group's words) is NOT pinned by any theorem",
+    "return-after-finish is an invariant of the reachable states (the model's return action is unguarded), not an enabling condition",
     "kernel: futex_wait may return spuriously, FUTEX_WAKE wakes the sleeper on the word; scheduler fairness is assumed for the "
     "no-lost-wake clause (the theorem shows that a wake-up is always pending, not when it is scheduled)",
     "thread lock values (tid & 0x3fffffff) are distinct and non-zero",
@@ -39,10 +47,24 @@ class XEv(conc.Ev):
             setattr(self, n, kw.get(n, getattr(e, n)))
 
 
-def coq_conform_big(name, traces, seg=1200, per_file=45000):  # noqa
-    """like conc.coq_conform, for long traces: every trace is written as a concatenation of short list literals (one
-    huge literal overflows coqc's stack); returns [(rejected_index, ended_idle)] in order"""
-    out, batch, nev = [], [], 0
+def _pid_name(name):
+    """case files under .cache/cases are shared by every check running at the moment: names carry the tag AND the pid"""
+    return "%s_p%d" % (name, os.getpid())
+
+
+def coq_eval_retry(name, body, timeout=900):
+    """one Coq evaluation; a failure (timeout, kill, error) is re-run ONCE, alone, with a 10x limit before it is reported.
+    returns (vals or None, raw)"""
+    ok, vals, raw = driver.coq_eval(_pid_name(name), IMPORTS, body, timeout=timeout)
+    if not ok:
+        ok, vals, raw = driver.coq_eval(_pid_name(name) + "_retry", IMPORTS, body, timeout=timeout * 10)
+    return (vals if ok else None), raw
+
+
+def coq_conform_big(name, traces, seg=1200, per_file=45000):
+    """conform (SyncWait.v) evaluated in Coq on every trace; every trace is written as a concatenation of short list literals
+    (one huge literal overflows coqc's stack).  returns ([(rejected_index, ended_idle) or None (not judged)], [problems])"""
+    out, problems, batch, nev = [], [], [], 0
 
     def flush():
         nonlocal batch, nev
@@ -57,11 +79,15 @@ def coq_conform_big(name, traces, seg=1200, per_file=45000):  # noqa
             body.append("Definition t%d : list event := %s." % (k, " ++ ".join(parts)))
         body.append("Eval vm_compute in [%s]." % "; ".join(
             "(let '(i, d) := conform %d t%d in [i; d])" % (sv, k) for k, (sv, _) in enumerate(batch)))
-        ok, vals, raw = driver.coq_eval("%s_%d" % (name, len(out)), IMPORTS, "\n".join(body) + "\n", timeout=900)
-        if not ok or len(vals) != 1:
-            raise RuntimeError("coq conformance evaluation failed: " + raw[-2000:])
-        xs = driver.ints(vals[0])
-        out.extend((xs[2 * i], xs[2 * i + 1]) for i in range(len(batch)))
+        vals, raw = coq_eval_retry("%s_%d" % (name, len(out)), "\n".join(body) + "\n")
+        xs = driver.ints(vals[0]) if vals is not None and len(vals) == 1 else None
+        if xs is None or len(xs) != 2 * len(batch):
+            problems.append({"what": "the Coq evaluation of SyncWait.conform failed twice (second time alone with a 10x limit) or printed "
+                                     "the wrong number of results: %d recorded traces were NOT judged" % len(batch),
+                             "detail": {"coq_output": raw[-1500:]}})
+            out.extend([None] * len(batch))
+        else:
+            out.extend((xs[2 * i], xs[2 * i + 1]) for i in range(len(batch)))
         batch, nev = [], 0
 
     for sv, tr in traces:
@@ -70,52 +96,7 @@ def coq_conform_big(name, traces, seg=1200, per_file=45000):  # noqa
         batch.append((sv, tr))
         nev += len(tr)
     flush()
-    return out
-
-
-def overtake(exe, seed, tag="c05s"):
-    """the fixed overtake schedule (harness mix 10): API oracle + the whole run, globally ordered, replayed through the
-    model in Coq (SyncOrder.xreplay) with the tail-tested fast path (tstep) and with the old one (tstep_old)"""
-    text, rc = run_harness(exe, seed, 0, 0, 0, 0, 10)
-    label = "overtake/seed%d" % seed
-    fails, traces, st = analyse(text, label)
-    for x in fails:
-        x["args"] = [seed, 0, 0, 0, 0, 10]
-    info = {}
-    for l in text.split("\n"):
-        if l.startswith("OT "):
-            for tok in l.split()[1:]:
-                k, _, v = tok.partition("=")
-                info[k] = int(v)
-    evs = sorted((e for (_, tr, _) in traces for e in tr), key=lambda e: e.seq)[:4000]   # a prefix is replayed when the run is long
-    ths = sorted({e.tid & 0x3fffffff for e in evs})
-    body, parts = [], []
-    for j in range(0, max(len(evs), 1), 400):
-        body.append("Definition g%d : list (Z * event) := [%s]." % (j // 400, "; ".join(
-            "(%d, %s)" % (e.tid & 0x3fffffff, e.coq()) for e in evs[j:j + 400])))
-        parts.append("g%d" % (j // 400))
-    body.append("Definition g : list (Z * event) := %s." % " ++ ".join(parts))
-    for ts in ("tstep", "tstep_old"):
-        body.append("Eval vm_compute in (let '(i, okb) := xreplay %s %s (init_state, h0) g 0 true in [i; if okb then 1 else 0])."
-                    % (ts, driver.zlist(ths)))
-    ok, vals, raw = driver.coq_eval("%s_overtake_%d" % (tag, seed), IMPORTS, "\n".join(body) + "\n", timeout=900)
-    if not ok or len(vals) != 2:
-        raise RuntimeError("coq replay of the overtake schedule failed: " + raw[-2000:])
-    new, old = driver.ints(vals[0]), driver.ints(vals[1])
-    mism = []
-    if new[0] != -1 or new[1] != 1:
-        i = new[0]
-        lo = max(0, i - 10)
-        mism.append({"what": "the recorded overtake schedule (worker about to unlock after an empty list, first enqueuer stalled "
-                             "after its tail exchange, second enqueuer returns without wakeup, then dispatch_sync by the same thread) "
-                             "is not a run of the model with the tail test in the fast path (SyncWait.tstep, S_ftail)",
-                     "detail": {"run": label, "rejected_at": i, "order_ok": new[1], "schedule": info,
-                                "old_fast_path_model": {"accepts": old[0] == -1, "order_ok": old[1],
-                                                        "reading": "accepted by SyncWait.tstep_old with order_ok = 0: the library behaves "
-                                                                   "like the model WITHOUT the tail test (libdispatch before 43b9c73)"
-                                                                   if old[0] == -1 and old[1] == 0 else ""},
-                                "around": ["t%d %s" % (e.tid & 0x3fffffff, e.brief()) for e in evs[lo:i + 3]] if i >= 0 else []}})
-    return fails, mism, traces, st, info, len(evs), label
+    return out, problems
 
 
 def build():
@@ -125,11 +106,120 @@ def build():
     return exe
 
 
-def run_harness(exe, seed, calls, permille, nclients, nfeeders, mix=0):
-    r = common.run([exe, str(seed), str(calls), str(permille), str(nclients), str(nfeeders), str(mix)], timeout=240)
-    if r.returncode not in (0, 1, 3):
-        raise RuntimeError("harness died rc=%s: %s" % (r.returncode, (r.stderr or "")[-1500:]))
-    return r.stdout, r.returncode
+HARNESS_TIMEOUT = 240
+
+
+def run_unit(exe, args):
+    """one harness run = one unit (args = [seed, calls, permille, nclients, nfeeders, mix]).  A wall-clock expiry or a
+    watchdog exit (rc 3: no progress for 10 s) is re-run ONCE, alone, with a 10x limit; only what the second run shows is
+    reported.  returns (text, rc, problems, retried)"""
+    cmd = [exe] + [str(x) for x in args]
+    r = common.run(cmd, timeout=HARNESS_TIMEOUT)
+    retried = 0
+    if r.returncode in (124, 3):
+        retried = 1
+        r = common.run(cmd, timeout=HARNESS_TIMEOUT * 10)
+    problems = []
+    text = r.stdout or ""
+    if r.returncode == 124:
+        problems.append({"what": "the harness run did not finish twice (%d s, then %d s alone): no verdict from this run"
+                                 % (HARNESS_TIMEOUT, HARNESS_TIMEOUT * 10), "args": list(args), "detail": {"tail": text[-400:]}})
+    elif r.returncode not in (0, 1, 3):
+        problems.append({"what": "the harness died (rc %s): no verdict from this run" % r.returncode, "args": list(args),
+                         "detail": {"stderr": (r.stderr or "")[-800:], "tail": text[-400:]}})
+    elif r.returncode != 3 and not any(l.startswith("S ") for l in text.split("\n")):
+        problems.append({"what": "the harness output is empty or truncated (no final statistics line): no verdict from this run",
+                         "args": list(args), "detail": {"rc": r.returncode, "tail": text[-400:]}})
+    return text, r.returncode, problems, retried
+
+
+def judge_traces(name, alltr):
+    """per-thread conformance of (self, trace, thread, label, args) entries; returns (mismatches, events judged, shapes)"""
+    mism, shapes, nev = [], set(), 0
+    res, problems = coq_conform_big(name, [(sv, t) for (sv, t, _, _, _) in alltr])
+    mism += problems
+    if len(res) != len(alltr):
+        mism.append({"what": "internal: %d conformance results for %d traces" % (len(res), len(alltr)), "detail": {}})
+    for r, (sv, t, thr, label, args) in zip(res, alltr):
+        if r is None:
+            continue
+        i, idle = r
+        nev += len(t)
+        if i != -1 or idle != 1:
+            lo = max(0, i - 12)
+            mism.append({"what": "a recorded thread trace of the library is not accepted by the model's thread automaton "
+                                 "(SyncWait.tstep): the implementation took a step the model does not have",
+                         "args": list(args), "trace_end_only": bool(i == -1),
+                         "detail": {"run": label, "thread": thr, "self": sv, "rejected_at": i, "ended_idle": idle,
+                                    "around": [e.brief() for e in t[lo:i + 3]] if i >= 0 else [e.brief() for e in t[-10:]]}})
+        cur = []
+        for e in t:
+            cur.append(e)
+            if e.kind == 101:
+                shapes.add(shape(cur))
+                cur = []
+        if cur:
+            shapes.add(shape(cur[:60]))
+    return mism, nev, shapes
+
+
+def stress_unit(exe, args, label=None):
+    """run + API oracle of one stress / retarget unit; returns (failures, problems, traces[(sv, t, thr, label, args)], stats, retried)"""
+    label = label or "seed%d/%d/%d/%d/%d/%d" % tuple(args)
+    text, rc, problems, retried = run_unit(exe, args)
+    f, tr, st = analyse(text, label)
+    for x in f:
+        x["args"] = list(args)
+    if not problems and args[5] != 9 and not tr:
+        problems.append({"what": "the harness recorded no event at all (hook compiled out?): nothing to judge in this run",
+                         "args": list(args), "detail": {}})
+    return f, problems, [(sv, t, thr, label, list(args)) for (sv, t, thr) in tr], st, retried
+
+
+def overtake(exe, seed, tag="c05s"):
+    """the fixed overtake schedule (harness mix 10): API oracle + the whole run, globally ordered, replayed through the
+    model in Coq (SyncOrder.xreplay) with the tail-tested fast path (tstep) and with the old one (tstep_old)"""
+    args = [seed, 0, 0, 0, 0, 10]
+    label = "overtake/seed%d" % seed
+    fails, mism, traces, st, retried = stress_unit(exe, args, label)
+    info = {}
+    # the harness text is needed once more for the OT line: stress_unit does not keep it, so the line is carried in stats
+    info = dict(st.get("_ot", {}))
+    if not mism and "schedule_reached" not in info:
+        mism.append({"what": "the overtake scenario printed no OT line (truncated output): no verdict from this run", "args": args, "detail": {}})
+    evs = sorted((e for (_, tr, _, _, _) in traces for e in tr), key=lambda e: e.seq)[:4000]   # a prefix is replayed when the run is long
+    if not evs:
+        return fails, mism, traces, st, info, 0, label
+    ths = sorted({e.tid & 0x3fffffff for e in evs})
+    body, parts = [], []
+    for j in range(0, len(evs), 400):
+        body.append("Definition g%d : list (Z * event) := [%s]." % (j // 400, "; ".join(
+            "(%d, %s)" % (e.tid & 0x3fffffff, e.coq()) for e in evs[j:j + 400])))
+        parts.append("g%d" % (j // 400))
+    body.append("Definition g : list (Z * event) := %s." % " ++ ".join(parts))
+    for ts in ("tstep", "tstep_old"):
+        body.append("Eval vm_compute in (let '(i, okb) := xreplay %s %s (init_state, h0) g 0 true in [i; if okb then 1 else 0])."
+                    % (ts, driver.zlist(ths)))
+    vals, raw = coq_eval_retry("%s_overtake_%d" % (tag, seed), "\n".join(body) + "\n")
+    if vals is None or len(vals) != 2:
+        mism.append({"what": "the Coq replay of the overtake schedule failed twice (second time alone with a 10x limit): the recorded "
+                             "run was NOT judged", "args": args, "detail": {"coq_output": raw[-1500:]}})
+        return fails, mism, traces, st, info, 0, label
+    new, old = driver.ints(vals[0]), driver.ints(vals[1])
+    if new[0] != -1 or new[1] != 1:
+        i = new[0]
+        lo = max(0, i - 10)
+        mism.append({"what": "the recorded overtake schedule (worker about to unlock after an empty list, first enqueuer stalled "
+                             "after its tail exchange, second enqueuer returns without wakeup, then dispatch_sync by the same thread) "
+                             "is not a run of the model with the tail test in the fast path (SyncWait.tstep, S_ftail)",
+                     "args": args,
+                     "detail": {"run": label, "rejected_at": i, "order_ok": new[1], "schedule": info,
+                                "old_fast_path_model": {"accepts": old[0] == -1, "order_ok": old[1],
+                                                        "reading": "accepted by SyncWait.tstep_old with order_ok = 0: the library behaves "
+                                                                   "like the model WITHOUT the tail test (libdispatch before 43b9c73)"
+                                                                   if old[0] == -1 and old[1] == 0 else ""},
+                                "around": ["t%d %s" % (e.tid & 0x3fffffff, e.brief()) for e in evs[lo:i + 3]] if i >= 0 else []}})
+    return fails, mism, traces, st, info, len(evs), label
 
 
 def normalise(per):
@@ -166,6 +256,8 @@ def analyse(text, label):
             key = "%s:%s" % (label, " ".join(what.split()[:4]))
             if not any(f["key"] == key for f in fails):
                 fails.append({"key": key, "what": what[:300], "label": label})
+        elif l.startswith("OT "):
+            stats["_ot"] = {k: int(v) for k, _, v in (tok.partition("=") for tok in l.split()[1:])}
         elif l.startswith("S "):
             for tok in l.split()[1:]:
                 k, _, v = tok.partition("=")
@@ -234,71 +326,87 @@ ORDER_PLANS = {
 }
 
 
+def judge_unit(exe, args, tag):
+    """run one unit with the recorded parameters against the current build and judge it completely (API oracle, per-thread
+    conformance, whole-run replay for the overtake schedule); returns (failures, mismatches, traces, stats, info, retried)"""
+    if args[5] == 10:
+        f, m, tr, st, info, nge, label = overtake(exe, args[0], tag)
+        info = dict(info, whole_run_events=nge)
+        if not m and not info.get("schedule_reached"):
+            info["not_reached"] = 1
+        return f, m, tr, st, info, 0
+    f, m, tr, st, retried = stress_unit(exe, args, "retarget/seed%d" % args[0] if args[5] == 9 else None)
+    return f, m, tr, st, {}, retried
+
+
 def correspond(ctx, tag="c05s", plans=None, retarget=True):
     exe = build()
     plan = (plans or PLANS)["quick" if ctx.tier == "quick" else "thorough"]
-    fails, mism, alltr, dist, shapes = [], [], [], {}, set()
+    fails, mism, alltr, dist = [], [], [], {}
     nitems = 0
-    for i, (calls, pm, ncl, nfd, mix) in enumerate(plan):
-        seed = ctx.seed * 1000 + i
-        text, rc = run_harness(exe, seed, calls, pm, ncl, nfd, mix)
-        label = "seed%d/%d/%d/%d/%d/%d" % (seed, calls, pm, ncl, nfd, mix)
-        f, tr, st = analyse(text, label)
-        for x in f:
-            x["args"] = [seed, calls, pm, ncl, nfd, mix]
+    units = [[ctx.seed * 1000 + i, calls, pm, ncl, nfd, mix] for i, (calls, pm, ncl, nfd, mix) in enumerate(plan)]
+    # oracle-only scenario: synchronous calls through a retargeted queue never overlap items of its serial target
+    units += [[ctx.seed * 1000 + 500 + j, 150, [0, 200][j % 2], 0, 0, 9] for j in range((2 if ctx.tier == "quick" else 6) if retarget else 0)]
+    measured = 0
+    for args in units:
+        f, m, tr, st, _, retried = judge_unit(exe, args, tag)
         fails += f
+        mism += m
+        dist["harness_runs_rerun_after_timeout_or_watchdog"] = dist.get("harness_runs_rerun_after_timeout_or_watchdog", 0) + retried
+        if not m and (tr or args[5] == 9) and st.get("items", 0) > 0:
+            measured += 1
         nitems += st.get("items", 0)
+        if args[5] == 9:
+            dist["retarget_scenario_items"] = dist.get("retarget_scenario_items", 0) + st.get("items", 0)
+            continue
         for k in ("self_run", "drainer_run", "async"):
             dist[k] = dist.get(k, 0) + st.get(k, 0)
-        branch_stats(tr, dist)
-        alltr += [(sv, t, thr, label) for (sv, t, thr) in tr]
-    # oracle-only scenario: synchronous calls through a retargeted queue never overlap items of its serial target
-    for j in range((2 if ctx.tier == "quick" else 6) if retarget else 0):
-        seed = ctx.seed * 1000 + 500 + j
-        text, rc = run_harness(exe, seed, 150, [0, 200][j % 2], 0, 0, 9)
-        f, _, st = analyse(text, "retarget/seed%d" % seed)
-        for x in f:
-            x["args"] = [seed, 150, [0, 200][j % 2], 0, 0, 9]
-        fails += f
-        nitems += st.get("items", 0)
-        dist["retarget_scenario_items"] = dist.get("retarget_scenario_items", 0) + st.get("items", 0)
+        branch_stats([(sv, t, thr) for (sv, t, thr, _, _) in tr], dist)
+        alltr += tr
+    dist["stress_runs_requested"], dist["stress_runs_measured"] = len(units), measured
+    if measured < len(units) and not mism:
+        mism.append({"what": "only %d of the %d requested harness runs produced a verdict" % (measured, len(units)), "detail": {}})
     # the fixed overtake schedule: API oracle, per-thread conformance and whole-run replay
-    reached = 0
-    for j in range(3 if ctx.tier == "quick" else 6):
-        f, m, tr, st, info, nge, label = overtake(exe, ctx.seed * 1000 + 700 + j, tag)
+    reached, tried = 0, []
+    want = 1 if ctx.tier == "quick" else 2
+    for j in range(5 if ctx.tier == "quick" else 8):
+        args = [ctx.seed * 1000 + 700 + j, 0, 0, 0, 0, 10]
+        f, m, tr, st, info, _ = judge_unit(exe, args, tag)
+        tried.append(args)
         fails += f
         mism += m
         nitems += st.get("items", 0)
-        alltr += [(sv, t, thr, label) for (sv, t, thr) in tr]
+        alltr += tr
         reached += info.get("schedule_reached", 0)
         dist["overtake_schedule_runs"] = dist.get("overtake_schedule_runs", 0) + 1
-        dist["overtake_whole_run_events_replayed"] = dist.get("overtake_whole_run_events_replayed", 0) + nge
-        if reached >= (1 if ctx.tier == "quick" else 2) and not f and not m:
+        dist["overtake_whole_run_events_replayed"] = dist.get("overtake_whole_run_events_replayed", 0) + info.get("whole_run_events", 0)
+        if f or m or reached >= want:
             break
     dist["overtake_schedule_reached"] = reached
-    if not reached:
-        mism.append({"what": "the overtake schedule was never reached (the holds in the hook did not produce the idle word with "
-                             "queued items): the scenario no longer exercises the tail test", "detail": {}})
-    res = coq_conform_big(tag + "_conf", [(sv, t) for (sv, t, _, _) in alltr])
-    nev = 0
-    for (i, idle), (sv, t, thr, label) in zip(res, alltr):
-        nev += len(t)
-        if i != -1 or idle != 1:
-            lo = max(0, i - 12)
-            mism.append({"what": "a recorded thread trace of the library is not accepted by the model's thread automaton "
-                                 "(SyncWait.tstep): the implementation took a step the model does not have",
-                         "detail": {"run": label, "thread": thr, "self": sv, "rejected_at": i, "ended_idle": idle,
-                                    "around": [e.brief() for e in t[lo:i + 3]] if i >= 0 else [e.brief() for e in t[-10:]]}})
-        # distinct control-flow shapes of calls / sessions
-        cur = []
-        for e in t:
-            cur.append(e)
-            if e.kind == 101:
-                shapes.add(shape(cur))
-                cur = []
-        if cur:
-            shapes.add(shape(cur[:60]))
-    samples = [{"self": sv, "thread": thr, "run": label, "first_events": [e.brief() for e in t[:25]]} for (sv, t, thr, label) in alltr[:3]]
+    if not reached and not any(x.get("args", [0] * 6)[5] == 10 for x in mism):
+        mism.append({"what": "the overtake schedule was never reached in %d runs (the holds in the hook did not produce the idle word "
+                             "with queued items): the scenario no longer exercises the tail test" % len(tried),
+                     "args_list": tried, "detail": {}})
+    m, nev, shapes = judge_traces(tag + "_conf", alltr)
+    # a trace that merely ENDS away from Idle (nothing rejected) can be a recording cut short on a loaded machine: that run is
+    # repeated once and only what the repetition shows is reported
+    ends = [x for x in m if x.get("trace_end_only")]
+    if ends:
+        m = [x for x in m if not x.get("trace_end_only")]
+        for args in {tuple(x["args"]) for x in ends}:
+            f2, m2, tr2, st2, _, _ = judge_unit(exe, list(args), tag)
+            m3, nev3, _ = judge_traces(tag + "_conf_again", tr2)
+            if f2 or m2 or m3:
+                fails += f2
+                m += m2 + m3
+            else:
+                dist["runs_repeated_because_a_trace_ended_away_from_idle_and_clean_then"] = \
+                    dist.get("runs_repeated_because_a_trace_ended_away_from_idle_and_clean_then", 0) + 1
+    mism += m
+    if nev <= 0 or not alltr:
+        mism.append({"what": "no recorded event was judged against the model in this run (traces: %d, events judged: %d): nothing "
+                             "ties SyncWait.tstep to the code" % (len(alltr), nev), "detail": {}})
+    samples = [{"self": sv, "thread": thr, "run": label, "first_events": [e.brief() for e in t[:25]]} for (sv, t, thr, label, _) in alltr[:3]]
     return {"evaluations": nev, "distinct_nontrivial": len(shapes),
             "rule": "stress runs of harness/c05_sync.c: 2..12 client threads calling dispatch_sync_f / dispatch_barrier_sync_f / "
                     "dispatch_async_and_wait_f on ONE serial queue kept busy by feeder threads with dispatch_async_f bursts, schedule "
@@ -312,22 +420,70 @@ def correspond(ctx, tag="c05s", plans=None, retarget=True):
                     "whose call had returned before its own call began has finished; the fixed overtake schedule of libdispatch 43b9c73 "
                     "(two threads held in the hook) recorded and replayed as ONE globally ordered run through the model in Coq "
                     "(SyncOrder.xreplay: taus searched), which must accept it with order_ok; evaluations = recorded events replayed; "
-                    "distinct = distinct control-flow shapes of calls / drain sessions",
+                    "distinct = distinct control-flow shapes of calls / drain sessions; a harness run that hits its wall-clock limit or its "
+                    "no-progress watchdog, and a Coq evaluation that fails, are repeated once alone with a 10x limit before anything is "
+                    "reported; a run whose only defect is a trace ending away from Idle is repeated once; runs without a verdict, "
+                    "unjudged traces and zero judged events are mismatches; evaluations counts judged events only",
             "samples": samples, "distribution": dist, "traces_validated_against_impl": len(alltr), "items_judged": nitems,
             "mismatches": mism[:20], "failures": fails[:20]}
 
 
 def replay(ctx, obj):
+    """re-executes every recorded failing input (same seed / calls / permille / clients / feeders / scenario) against the
+    current build and judges it again completely.  1 = a failure or mismatch shows again, 0 = every recorded input was re-run
+    and is clean now, 2 = nothing (or not everything) could be re-executed and nothing reproduced"""
     exe = build()
+    tag = "c05s_replay"
+    units, nonexec = [], []
+
+    def add(a):
+        a = [int(x) for x in a]
+        if len(a) == 6 and a not in units:
+            units.append(a)
+
     for f in obj.get("failures", []):
         print("recorded failure:", f.get("what"))
-        a = f.get("args")
-        if a:
-            text, rc = run_harness(exe, *a)
-            f2, _, _ = analyse(text, "replay")
-            print("re-run %s: %d failures" % (a, len(f2)))
-            for x in f2[:5]:
-                print("  ", x["what"])
+        if f.get("args"):
+            add(f["args"])
+        else:
+            nonexec.append(f.get("what"))
     for b in obj.get("broken", []):
-        print("no longer checks:", b)
-    return 1
+        d = b.get("detail") if isinstance(b, dict) else None
+        if isinstance(d, dict) and d.get("args"):
+            print("recorded broken tie:", str(d.get("what"))[:200])
+            add(d["args"])
+        elif isinstance(d, dict) and d.get("args_list"):
+            print("recorded broken tie:", str(d.get("what"))[:200])
+            for a in d["args_list"]:
+                add(a)
+        else:
+            nonexec.append("%s: %s" % (b.get("what") if isinstance(b, dict) else "entry", str(d if d is not None else b)[:300]))
+    repro = 0
+    for args in units:
+        f, m, tr, st, info, _ = judge_unit(exe, args, tag)
+        if args[5] not in (9, 10):
+            m2, _, _ = judge_traces(tag + "_conf", tr)
+            m += m2
+        elif args[5] == 10:
+            m2, _, _ = judge_traces(tag + "_conf", tr)
+            m += m2
+            if not m and not info.get("schedule_reached"):
+                m.append({"what": "the overtake schedule was not reached in this re-run"})
+        if f or m:
+            repro += 1
+            print("re-run %s: REPRODUCES (%d failures, %d mismatches)" % (args, len(f), len(m)))
+            for x in f[:5]:
+                print("   FAIL", x["what"])
+            for x in m[:5]:
+                print("   MISMATCH", str(x.get("what"))[:300])
+        else:
+            print("re-run %s: does not reproduce (items judged %s, traces %d; stress schedules differ from run to run)" % (args, st.get("items"), len(tr)))
+    for n in nonexec:
+        print("no longer checked, and not re-executable by itself (a proof, a translation, a build or a tie without a recorded "
+              "input): %s -- only a full ./check re-establishes it" % n)
+    if repro:
+        return 1
+    if units and not nonexec:
+        print("does not reproduce")
+        return 0
+    return 2
